@@ -11,6 +11,8 @@
 (***************************************************************************)
 EXTENDS Cells, TLC
 
+CONSTANT Big      \* BOOLEAN: the larger universe of the thorough tier (3x3, 1x4, 3x2, 3x4 grids, up to two holes, a third mesh)
+
 VARIABLES w, out
 vars == <<w, out>>
 
@@ -51,9 +53,16 @@ MWorld(nodes, faces) ==
    vars |-> VarsFor(<<"face">>, <<Len(faces)>>)]
 
 Cells2(ny, nx) == (0..(ny - 1)) \X (0..(nx - 1))
+ShapesOf == {<<2, 2>>, <<2, 3>>, <<3, 1>>} \cup (IF Big THEN {<<3, 3>>, <<1, 4>>, <<3, 2>>, <<3, 4>>} ELSE {})
+MaxHoles == IF Big THEN 2 ELSE 1
 Worlds ==
-  UNION {{SWorld(s[1], s[2], H) : H \in {S \in SUBSET Cells2(s[1], s[2]) : Cardinality(S) <= 1}}
-         : s \in {<<2, 2>>, <<2, 3>>, <<3, 1>>}}
+  UNION {{SWorld(s[1], s[2], H) : H \in {S \in SUBSET Cells2(s[1], s[2]) : Cardinality(S) <= MaxHoles}}
+         : s \in ShapesOf}
+  \cup (IF Big
+        THEN {\* two triangles and a pentagon around a quad
+              MWorld(<<P(0,0), P(1,0), P(2,0), P(0,1), P(1,1), P(2,1), P(1,2)>>,
+                     <<<<0, 1, 4>>, <<0, 4, 3>>, <<1, 2, 5, 4>>, <<3, 4, 5, 6>>>>)}
+        ELSE {})
   \cup {MWorld(<<P(0,0), P(1,0), P(2,0), P(0,1), P(1,1), P(2,1)>>, <<<<0, 1, 4, 3>>, <<1, 2, 5>>, <<1, 5, 4>>>>),
         \* an L-shaped concave face next to a quad
         MWorld(<<P(0,0), P(2,0), P(2,1), P(1,1), P(1,2), P(0,2), P(2,2)>>, <<<<0, 1, 2, 3, 4, 5>>, <<3, 2, 6, 4>>>>)}
